@@ -33,6 +33,9 @@ def matches(pattern, sig):
         elif isinstance(want, dict) and "prefix" in want:
             if not str(have).startswith(want["prefix"]):
                 return False
+        elif isinstance(want, dict) and "contains" in want:
+            if want["contains"] not in str(have):
+                return False
         elif have != want:
             return False
     return True
